@@ -106,7 +106,9 @@ func (s *sys) apply(l lab) {
 	if l.kind == "restart" {
 		s.w.CrashAfter(0)
 		s.boot()
-		s.entity()
+		if s.w.TaskInfos()[s.task] != nil {
+			s.entity() // ReloadTask starts the task, which would build the entity of its target
+		}
 		s.cdc.ReloadTask()
 		return
 	}
@@ -116,7 +118,9 @@ func (s *sys) apply(l lab) {
 	st, ok := s.memState()
 	switch l.kind {
 	case "create":
-		s.entity()
+		if !ok {
+			s.entity()
+		}
 		s.call(l.cut, !ok, func() {
 			_, _ = s.cdc.Create(&request.CreateRequest{TaskID: s.task, KafkaConnectParam: model.KafkaConnectParam{Address: target, Topic: "t"},
 				DBCollections: map[string][]model.CollectionInfo{"db1": {{Name: "*"}}}})
@@ -124,11 +128,30 @@ func (s *sys) apply(l lab) {
 	case "pause":
 		s.call(l.cut, ok && st == meta.TaskStateRunning, func() { _, _ = s.cdc.Pause(&request.PauseRequest{TaskID: s.task}) })
 	case "resume":
-		s.entity()
+		if ok && st == meta.TaskStatePaused {
+			s.entity()
+		}
 		s.call(l.cut, ok && st == meta.TaskStatePaused, func() { _, _ = s.cdc.Resume(&request.ResumeRequest{TaskID: s.task}) })
+	case "resumefail":
+		// the store refuses the update of the task record: the start is rolled back, the task stays paused
+		if ok && st == meta.TaskStatePaused {
+			s.entity()
+			s.w.FailNext("task.put", 1)
+			s.call(-1, false, func() { _, _ = s.cdc.Resume(&request.ResumeRequest{TaskID: s.task}) })
+			s.w.ClearFaults()
+		}
 	case "delete":
 		s.call(-1, false, func() { _, _ = s.cdc.Delete(&request.DeleteRequest{TaskID: s.task}) })
 	}
+}
+
+func (s *sys) hasEntity() bool {
+	for _, e := range s.cdc.VerifSnapshot().Entities {
+		if e.Key == target {
+			return true
+		}
+	}
+	return false
 }
 
 func (s *sys) observe() string {
@@ -151,7 +174,11 @@ func (s *sys) observe() string {
 			mem = 9
 		}
 	}
-	return fmt.Sprintf("(%s, %s, %s)", cq.Nat(stored), cq.Nat(mem), cq.Bool(s.dead))
+	ent := false
+	if !s.dead {
+		ent = s.hasEntity()
+	}
+	return fmt.Sprintf("(%s, %s, %s, %s)", cq.Nat(stored), cq.Nat(mem), cq.Bool(s.dead), cq.Bool(ent))
 }
 
 func labCoq(l lab) string {
@@ -166,6 +193,8 @@ func labCoq(l lab) string {
 		return "(LPause " + cut + ")"
 	case "resume":
 		return "(LResume " + cut + ")"
+	case "resumefail":
+		return "LResumeFail"
 	case "delete":
 		return "LDelete"
 	}
@@ -213,7 +242,8 @@ func main() {
 	r := a.Rng
 	runCase(out, []lab{{"create", 1}, {"restart", -1}, {"pause", -1}, {"resume", -1}}, "corpus: crash between the two writes of a create, restart")
 	runCase(out, []lab{{"create", -1}, {"pause", 1}, {"restart", -1}, {"pause", -1}, {"resume", 1}, {"restart", -1}, {"delete", -1}}, "corpus: crashes right after the write of a pause and of a resume")
-	kinds := []string{"create", "pause", "resume", "delete", "restart"}
+	runCase(out, []lab{{"create", -1}, {"pause", -1}, {"resumefail", -1}, {"delete", -1}, {"create", -1}}, "corpus: a refused resume leaves the idle entity, the delete collects it")
+	kinds := []string{"create", "pause", "resume", "resumefail", "delete", "restart"}
 	for i := 0; i < a.N; i++ {
 		n := 3 + r.Intn(8)
 		ls := []lab{{"create", -1}}
@@ -222,7 +252,7 @@ func main() {
 		}
 		for k := 1; k < n; k++ {
 			l := lab{kind: kinds[r.Intn(len(kinds))], cut: -1}
-			if l.kind != "delete" && l.kind != "restart" && r.Intn(3) == 0 {
+			if l.kind != "delete" && l.kind != "restart" && l.kind != "resumefail" && r.Intn(3) == 0 {
 				l.cut = r.Intn(3)
 			}
 			if l.kind == "delete" && r.Intn(2) == 0 {
